@@ -15,7 +15,7 @@ ATTRS = ['H5Tget_class', 'H5Tget_size', 'H5Tget_order', 'H5Tget_precision', 'H5T
 REPLAY_SESSION = '''
 from vlib import build, refmodel
 import numpy as np, tempfile, os, shutil, sys, glob, hashlib
-top = tempfile.mkdtemp(prefix='drf_'); ch = os.path.join(top, 'ch'); os.makedirs(ch)
+top = tempfile.mkdtemp(prefix='tmp.drf_'); ch = os.path.join(top, 'ch'); os.makedirs(ch)
 cfg = dict(n=10, d=1, sc=3600, fc=1000, start=10**10)
 def session(start_rel, n):
     rw = refmodel.RealWriter(build, ch, cfg['n'], cfg['d'], cfg['sc'], cfg['fc'], cfg['start'], 0)
